@@ -61,8 +61,14 @@ pub const EXOTIC: &[&str] = &[
 pub const COUNT_FIELDS: &[&str] = &["players", "players", "players", "online", "region", ""];
 pub const NON_NUMERIC: &[&str] = &["", "abc", "12a", "NaN", "full", "-1", "1e2", "٣"];
 
+/// values with commas and blanks at the edges: a joined list (`tags = "beta,whitelist"`, the way the
+/// Agones discovery writes lists), a version range, free text. A value is one value.
+pub const JOINED: &[&str] = &["eu,us", "us,eu", "eu, us", " eu", "eu ", "beta,whitelist", ",", "eu,"];
+
 fn value(rng: &mut Rng) -> String {
-    if rng.chance(1, 12) {
+    if rng.chance(1, 8) {
+        rng.pick(JOINED).to_string()
+    } else if rng.chance(1, 12) {
         rng.pick(EXOTIC).to_string()
     } else {
         rng.pick(VALUES).to_string()
@@ -232,8 +238,11 @@ fn gen_targets(rng: &mut Rng, strategy: &StrategySpec, lenient_kind: u64) -> Vec
                 meta.remove(field);
             }
         }
+        // now and then a server is reported more than once (one entry per port or instance, a name
+        // used twice in a fixed list): every report is a target of its own
+        let ident = if i > 0 && rng.chance(1, 6) { format!("t{}", rng.usize_below(i)) } else { format!("t{i}") };
         out.push(TargetSpec {
-            identifier: format!("t{i}"),
+            identifier: ident,
             address: format!("10.0.{}.{}:{}", rng.below(4), i + 1, 25565 + i),
             meta,
         });
